@@ -494,7 +494,7 @@ def run():
             sql = ans.get("ok", "")
             return sql[len("SELECT "):-len(" AS v FROM t")] if sql.startswith("SELECT ") and sql.endswith(" AS v FROM t") else None
         if fmodel is not None:
-            for (src, m_, sg_, mag_, bits), a, an, ((cls, txt), ryu) in zip(fl, fcomp, fneg, fmodel):
+            for (src, m_, sg_, mag_, bits), a, an, (cls, txt, ryu) in zip(fl, fcomp, fneg, fmodel):
                 got = num_of(a)
                 ck.count("float-text", src)
                 if ryu == "None":
